@@ -24,6 +24,7 @@ type genProfile struct {
 	wReportErr, wRegister          int
 	wUnregister, wReleaseCB        int
 	wEnable                        int
+	wDone                          int // a watcher finishes (Done) in the middle of the history while others keep watching
 	slowPct                        int
 	shutdownPct                    int // percent of scenarios that shut down and issue late ops
 	unregTwicePct                  int
@@ -224,14 +225,33 @@ func genScenario(t *rapid.T, p genProfile) Scenario {
 		sc.Init = append(sc.Init, *l)
 	}
 	nops := rapid.IntRange(1, p.maxOps).Draw(t, "n_ops")
-	weights := []int{p.wReport, p.wView, p.wEvents, p.wReportErr, p.wRegister, p.wUnregister, p.wReleaseCB, p.wEnable}
+	weights := []int{p.wReport, p.wView, p.wEvents, p.wReportErr, p.wRegister, p.wUnregister, p.wReleaseCB, p.wEnable, p.wDone}
 	if sc.NWatch == 0 {
-		weights = []int{0, p.wView + 1, p.wEvents, 0, p.wRegister, 0, 0, p.wEnable}
+		weights = []int{0, p.wView + 1, p.wEvents, 0, p.wRegister, 0, 0, p.wEnable, 0}
+	}
+	// sources that are still watching (a finished one reports nothing more)
+	live := make([]int, 0, sc.NWatch)
+	for i := 0; i < sc.NWatch; i++ {
+		live = append(live, i)
+	}
+	pickLive := func(label string) int {
+		if len(live) == sc.NWatch {
+			return rapid.IntRange(0, sc.NWatch-1).Draw(t, label) // same draws as before wDone existed
+		}
+		return live[rapid.IntRange(0, len(live)-1).Draw(t, label)]
 	}
 	for i := 0; i < nops; i++ {
 		switch pickWeighted(t, "op", weights) {
+		case 8:
+			if len(live) < 2 {
+				sc.Ops = append(sc.Ops, Op{K: "view"})
+				continue
+			}
+			k := rapid.IntRange(0, len(live)-1).Draw(t, "done_mid")
+			sc.Ops = append(sc.Ops, Op{K: "done", Src: live[k]})
+			live = append(live[:k:k], live[k+1:]...)
 		case 0:
-			op := Op{K: "report", Src: rapid.IntRange(0, sc.NWatch-1).Draw(t, "src")}
+			op := Op{K: "report", Src: pickLive("src")}
 			op.L = g.genLayer(t, op.Src, p)
 			op.Block = rapid.IntRange(0, 99).Draw(t, "block") < p.blockPct
 			if rapid.IntRange(0, 99).Draw(t, "pre") < p.prePct {
@@ -249,7 +269,7 @@ func genScenario(t *rapid.T, p genProfile) Scenario {
 		case 2:
 			sc.Ops = append(sc.Ops, Op{K: "events"})
 		case 3:
-			sc.Ops = append(sc.Ops, Op{K: "reporterr", Src: rapid.IntRange(0, sc.NWatch-1).Draw(t, "src")})
+			sc.Ops = append(sc.Ops, Op{K: "reporterr", Src: pickLive("src")})
 		case 4:
 			sc.Ops = append(sc.Ops, g.genRegister(t, p))
 		case 5:
@@ -270,7 +290,7 @@ func genScenario(t *rapid.T, p genProfile) Scenario {
 		if rapid.Bool().Draw(t, "shutdown_by_cancel") {
 			sc.Ops = append(sc.Ops, Op{K: "cancel"})
 		} else {
-			perm := rapid.Permutation([]int{0, 1, 2}[:sc.NWatch]).Draw(t, "done_order")
+			perm := rapid.Permutation(append([]int{}, live...)).Draw(t, "done_order")
 			for _, s := range perm {
 				sc.Ops = append(sc.Ops, Op{K: "done", Src: s})
 				if rapid.IntRange(0, 3).Draw(t, "between_done") == 0 {
